@@ -12,7 +12,10 @@ RULE = ("hashers: HasherV2, HasherHybrid (padding on/off) and FileHasher (hybrid
         "cases as C02: the boundary set with the real BLOCK_SIZE and the patched_constant small scope (exhaustive in the thorough "
         "tier), sizes 0 included.  Creators: for every generated tree / piece length / option set the decoded metafiles of "
         "(TorrentAssembler v2, TorrentFileV2), (TorrentAssembler hybrid, TorrentFileHybrid) and, on a third of the trees, "
-        "(`create --meta-version 2|3`, class-based creator) must have identical info dictionaries and piece layers.  "
+        "(`create --meta-version 2|3`, class-based creator) must have identical info dictionaries and piece layers; so must every "
+        "variant written for the same state of the payload: align=True / --align / `align = true` in a configuration file (an "
+        "option of v1 metafiles that every creator accepts), the public assemble() called again on the same object before write(), "
+        "and assemble() called again after the payload changed (against a fresh class-based create of the changed payload).  "
         "A case is non-trivial when it is distinct and hits at least one boundary class.")
 RULE += ("  Unit correspondence of Model/Creators.v (the creator-level theorems rest on it): TorrentFileV2, TorrentAssembler "
          "(meta version 2), TorrentFileHybrid and TorrentAssembler (meta version 3), all four on every tree so that both sides "
